@@ -141,14 +141,13 @@ def recv_class(ix: Index, fn: Optional[FuncInfo], recv: Optional[ast.AST]) -> Op
 
 
 def dynamic_feature_census(ix: Index) -> List[Tuple[str, int, str]]:
-    """setattr / non-literal getattr / __dict__ / exec / eval / globals() sites (soundness caveat for who-may-write)."""
+    """setattr / delattr / __dict__ / exec / eval / globals() sites: the constructs that can write attributes behind the
+    back of the who-may-write inventories (dynamic *reads* such as getattr are harmless and not listed)."""
     out = []
     for mi in ix.modules.values():
         for n in ast.walk(mi.tree):
             if isinstance(n, ast.Call) and isinstance(n.func, ast.Name):
                 if n.func.id in ("setattr", "exec", "eval", "globals", "delattr"):
-                    out.append((mi.path, n.lineno, unparse(n)[:80]))
-                elif n.func.id == "getattr" and len(n.args) >= 2 and not isinstance(n.args[1], ast.Constant):
                     out.append((mi.path, n.lineno, unparse(n)[:80]))
             elif isinstance(n, ast.Attribute) and n.attr == "__dict__":
                 out.append((mi.path, n.lineno, unparse(n)[:80]))
